@@ -1018,6 +1018,23 @@ def propose(g: L.G, root: Any, families: list[str], misfit_prob: float = 0.0, ho
         m, p, cname, mi = inst[g.n(0, len(inst) - 1)]
         return gen_for(g, root, m, p, cname, mi, misfit_prob=misfit_prob)
     if fam == 'space':
+        if hot and g.p(0.6):
+            # a spacing access on a model (or a token of it) that an earlier operation created, inserted, moved or copied
+            idx = index_models(root)
+            hm = [(cn, i, m) for cn, ms in sorted(idx.items()) for i, m in enumerate(ms) if id(m) in hot and cn != 'File' and hasattr(type(m), 'spacing_before')]
+            if hm:
+                cn, i, m = hm[g.n(0, len(hm) - 1)]
+                text = g.pick(['', ' ', '  ', '\t', '\n', ' \n ', '\r\n', '\n\n']) if g.p(0.6) else g.chars(' \t\n', 0, 5)
+                if g.p(0.3):
+                    try:
+                        inner = [t for t in m.tokens if t.raw_text != '']
+                        allt = O.store_tokens(root.token_store)
+                        t = inner[g.n(0, len(inner) - 1)]
+                        ti = next(k for k, x in enumerate(allt) if x is t)
+                        return {'f': 'space', 'ti': ti, 'side': g.pick(['before', 'after']), 'text': text, 'hot': True}
+                    except Exception:  # noqa: BLE001
+                        pass
+                return {'f': 'space', 'cls': cn, 'mi': i, 'side': g.pick(['before', 'after']), 'text': text, 'hot': True}
         toks = O.store_tokens(root.token_store)
         if g.p(0.5) and toks:
             return {'f': 'space', 'ti': g.n(0, len(toks) - 1), 'side': g.pick(['before', 'after']), 'text': g.chars(' \t\n', 0, 4)}
